@@ -140,7 +140,17 @@ pub fn run(ctx: &mut Ctx) {
         let (r, secs) = timed({ let qr = qr.clone(); let reg = reg.clone(); move || reader::SessionManager::establish_session(qr, sess::simple_namespaces(&["a"]), reg).is_ok() });
         report(ctx, "establish_session", kind_of(what), r.is_err(), secs, b, r.as_ref().err().map(|s| s.as_str()).unwrap_or(""));
     }
-    for junk in ["", "mdoc:", "mdoc:!!!!", "mdoc:AA", "http://x", "mdoc:\u{0}"] {
+    // text around the scheme: every prefix length, other cases, and multi-byte characters lying ACROSS each of the
+    // first eight byte offsets (a byte-indexed slice of the URI must not split a character)
+    let mut uris: Vec<String> = ["", "mdoc:", "mdoc:!!!!", "mdoc:AA", "http://x", "mdoc:\u{0}", "MDOC:AA", "Mdoc:", "mdoc", "mdo", "m", "mdoc\u{ff1a}AA", "mdoc\u{e9}"].iter().map(|s| s.to_string()).collect();
+    for pad in 0..8usize { for ch in ["\u{e9}", "\u{20ac}", "\u{1f600}", "\u{ff1a}"] {
+        uris.push(format!("{}{}{}", &"mdoc:AAAA"[..pad.min(9)], ch, "AA"));
+        uris.push(format!("{}{}", "x".repeat(pad), ch));
+    } }
+    for junk in uris.iter().map(|s| s.as_str()) {
+        let junk: &'static str = Box::leak(junk.to_string().into_boxed_str());
+        let (r, secs) = timed({ let reg = reg.clone(); move || reader::SessionManager::establish_session(junk.to_string(), sess::simple_namespaces(&["a"]), reg).is_ok() });
+        report(ctx, "establish_session", "junk-uri", r.is_err(), secs, junk.as_bytes(), "");
         let (r, secs) = timed(move || Tag24::<DeviceEngagement>::from_qr_code_uri(junk).is_ok());
         report(ctx, "from_qr_code_uri", "junk-uri", r.is_err(), secs, junk.as_bytes(), "");
     }
